@@ -44,4 +44,4 @@ if __name__ == "__main__":
             for p in errs:
                 print("      ERR", p, res[p]["err"])
             rows.append({"seed": name, "fired": fired, "errors": errs, "detail": {p: v["fails"] for p, v in res.items() if v["fails"]}})
-    (V / "seeded" / "matrix.json").write_text(json.dumps(rows, indent=1))
+    Path(os.environ.get("MATRIX_OUT", str(V / "seeded" / "matrix.json"))).write_text(json.dumps(rows, indent=1))
